@@ -156,6 +156,7 @@ func (f *Polynomial) Copy() *Polynomial {
 		}
 		h.coefs[deg] = c.Copy()
 	}
+	h.err = f.err
 	return h
 }
 
